@@ -48,8 +48,8 @@ man = {
     'hooks': {
         'guard': '--cfg fuel_core_verif',
         'enable': 'RUSTFLAGS="--cfg fuel_core_verif --cfg tokio_unstable" via /verif/sim/.cargo/config.toml (harness build only, target dir /verif/target)',
-        'baseline_off_cmd': 'cd /repo && cargo test --workspace --no-fail-fast --offline',
-        'source_commits': json.load(open(f'{ROOT}/tools/hook_commits.json')),
+        'baseline_off_cmd': 'cd /repo && CARGO_NET_OFFLINE=true cargo nextest run --workspace --no-fail-fast --tool-config-file pb:/w/lib/nextest.toml --profile pb --test-threads 8 --offline  (fallback: CARGO_NET_OFFLINE=true cargo test --workspace --no-fail-fast --offline); the guard is a --cfg that only /verif/sim/.cargo/config.toml sets, so a plain build of /repo has it off',
+        'source_commits': [l.split()[0] for l in __import__('subprocess').run('git -C /repo log --format="%h %s" --grep "^verif hook"', shell=True, capture_output=True, text=True).stdout.splitlines()],
         'add_only': True,
     },
     'engines': engines,
